@@ -55,6 +55,9 @@ pub struct Consumer {
     /// the consumer stops polling (keeping its stream alive) after this many items: what follows stays buffered
     #[serde(default)]
     pub max_items:      Option<u8>,
+    /// the stream is dropped by its own thread as soon as it has answered end-of-stream (what an executor task does)
+    #[serde(default)]
+    pub drop_on_end:    bool,
 }
 
 #[derive(Clone, Debug, Serialize, Deserialize)]
@@ -713,6 +716,16 @@ fn consumer_body(ctx: &ThreadCtx, ci: usize, tid: usize, cons: &Consumer, chan: 
                 let mut g = log.lock().unwrap();
                 g.polls.push(PollRec { thread: tid as u8, consumer: ci as u8, stream: stream.id(), call, ret, res: PollRes::End, drain: false });
                 g.consumers[ci].ended = true;
+                if cons.drop_on_end {
+                    g.consumers[ci].polls = polls;
+                    drop(g);
+                    ctx.point("drop_stream.call");
+                    let call = ctx.tick();
+                    ctx.op(|| drop(stream));
+                    let ret = ctx.tick();
+                    log.lock().unwrap().consumers[ci].dropped_at = Some((call, ret));
+                    return;
+                }
                 break;
             },
             Poll::Pending => {
